@@ -345,7 +345,24 @@ pub fn generate(seed: u64, tier: &str, property: &str) -> RegScenario {
     let mut cloned = false;
     for _ in 0..n_more {
         let roll = rng.below(100);
-        if roll < 22 {
+        if roll < 4 && !h.g.world.comps.is_empty() && !use_disk {
+            // a second provider of an existing component at another fallback priority (valid:
+            // priorities differ), later turned into plain text again (the provider disappears):
+            // which definition wins must depend on priority only, never on the order of adds
+            let c = rng.pick(&h.g.world.comps);
+            let d = h.g.cfg.delims.clone();
+            let sig: Vec<String> = c.params.iter().map(|p| if p.has_default { format!("{} = {}", p.name, p.sample) } else { p.name.clone() }).collect();
+            let body = format!("{} component {}({}{}) {}TWIN{}{} endcomponent {}", d.bs, c.name, sig.join(", "), if c.rest { if sig.is_empty() { "...rest" } else { ", ...rest" } } else { "" }, d.be, rng.below(9), d.bs, d.be);
+            let mut names = vec!["zz_twin.html".to_string()];
+            for p in &h.g.cfg.prefixes {
+                names.push(format!("{}zz_twin.html", p));
+            }
+            let name = rng.pick(&names);
+            h.push(Op::AddRaw { name: name.clone(), source: body }, Some("component-twin-provider"), true);
+            if rng.chance(1, 2) {
+                h.push(Op::AddRaw { name, source: "twin gone".to_string() }, None, true);
+            }
+        } else if roll < 22 {
             // valid replacement
             let (i, src) = h.valid_replacement();
             let dep = h.has_dependents(i);
@@ -531,6 +548,7 @@ pub fn generate(seed: u64, tier: &str, property: &str) -> RegScenario {
         }
     }
     names.push("nope.html".to_string());
+    names.push("zz_twin.html".to_string());
     for k in 0..3 {
         names.push(format!("zz_new{}.html", k));
     }
